@@ -403,7 +403,9 @@ theorem readInfo_decP (t : TCfg) (r : R) (h : P r.dec) : P (readInfo cfg t r).1.
                   | error e => exact h2
                   | ok u =>
                     simp only
-                    cases infoOf r2 <;> exact h2
+                    cases infoOf r2 with
+                    | none => exact h2
+                    | some i2 => simp only; split <;> exact h2
             · exact h1
   unfold readInfo
   cases hx : readInfo' cfg t r with
